@@ -252,12 +252,74 @@ def shard(shard_i, nshards, payload):
     return res.to_dict()
 
 
+REL_BIN = os.path.join(core.TARGET, "plcrel", "release", "ironplcc")
+
+
+def memcheck_shard(shard_i, nshards, payload):
+    """valgrind memcheck on a release build of the binary for random binary and re-encoded files: an error report
+    (uninitialised read, invalid access) makes valgrind exit 99."""
+    import subprocess
+    res = core.Result()
+    tmp = core.worker_tmpdir("c14vg")
+    try:
+        for i in range(shard_i, payload["n_memcheck"], nshards):
+            rng = core.rng_for(payload["seed"], "c14vg", i)
+            if i % 2:
+                data = bytes(rng.randrange(256) for _ in range(rng.choice([3, 50, 700, 4000])))
+                if i % 4 == 1:
+                    data = rng.choice([b"\xff\xfe", b"\xfe\xff", b"\xef\xbb\xbf"]) + data
+            else:
+                text = decorate(vgen.render_unit(vgen.VGen(rng).unit(n_types=1, n_fbs=1, n_programs=1)), rng, True)
+                data = ENCODINGS[i // 2 % 4][1](text)
+            path = os.path.join(tmp, "m%d.st" % i)
+            open(path, "wb").write(data)
+            for cmd in ("check", "tokenize"):
+                env = dict(os.environ, TMPDIR=tmp)
+                try:
+                    p = subprocess.run(["valgrind", "--error-exitcode=99", "--quiet", REL_BIN, cmd, path], env=env,
+                                       stdout=subprocess.DEVNULL, stderr=subprocess.PIPE, timeout=300)
+                except subprocess.TimeoutExpired:
+                    res.inconclusive.append({"why": "valgrind watchdog", "case": {"hex": data[:2000].hex()}})
+                    continue
+                res.evaluations += 1
+                res.count("memcheck")
+                if p.returncode == 99:
+                    res.violation("sanitizer", "memcheck:error", p.stderr.decode("utf-8", "replace")[-600:],
+                                  {"hex": data[:3000].hex(), "cmd": cmd})
+                elif p.returncode in (101,) or p.returncode < 0:
+                    res.violation("crash", "memcheck:crash:%s" % p.returncode, p.stderr.decode("utf-8", "replace")[-300:],
+                                  {"hex": data[:3000].hex(), "cmd": cmd})
+                else:
+                    res.distinct.add(core.key_of("vg", i, cmd))
+            os.unlink(path)
+    finally:
+        shutil.rmtree(tmp, ignore_errors=True)
+    return res.to_dict()
+
+
+def build_release():
+    try:
+        core._run_build(["cargo", "build", "--offline", "-q", "--release", "-p", "ironplcc", "--bin", "ironplcc"], core.COMPILER,
+                        os.path.join(core.TARGET, "plcrel"), "ironplcc (release)")
+    except core.MachineryError:
+        return False
+    return os.path.exists(REL_BIN)
+
+
 def run(tier, seed):
     core.build_plc()
     avoid = sorted({a for f in core.load_findings("C02") if f.get("status") == "open" for a in f.get("atoms", [])})
     payload = {"seed": seed, "avoid": avoid, "n_docs": 96 if tier == "quick" else 3000,
                "n_binary": 160 if tier == "quick" else 50000}
     parts = core.run_sharded(shard, payload)
+    memcheck = "not run (quick tier)"
+    if tier == "thorough":
+        if build_release():
+            payload["n_memcheck"] = 240
+            parts += core.run_sharded(memcheck_shard, payload)
+            memcheck = "240 files x 2 commands under valgrind memcheck (release build)"
+        else:
+            memcheck = "release build failed: not run"
     res = core.Result.merge(parts)
     extra = {
         "rule": "generated valid / semantically faulty / lexically faulty programs with non-ASCII characters in comments "
@@ -270,7 +332,7 @@ def run(tier, seed):
         "assumptions": ["reference decoder: BOM sniff, strict UTF-8, else WHATWG windows-1252",
                         "positions are bounded by the reference-decoded text (line count and line length + 1)"],
         "min_evaluations": 1000,
-        "coverage": {"byte_sweep_exhaustive": True},
+        "coverage": {"byte_sweep_exhaustive": True, "memcheck": memcheck},
     }
     return res, extra
 
